@@ -382,10 +382,131 @@ def _container_complete(ctx, unit: Unit, cfg: CFG, siter: Node, src: str) -> Opt
                 removing = True
         if removing:
             in_stop = any(k == "handler" and "StopAsyncIteration" in norm(a.type) for (k, a) in n.regions)  # type: ignore[union-attr]
+            if not in_stop and _exhaustion_witnessed(ctx, unit, cfg, n):
+                in_stop = True
             if not in_stop:
                 return (f"`{norm(n.ast).splitlines()[0]}` removes an iterator from `{name}` "
                         f"outside an exhaustion handler: it would never be closed")
     return None
+
+
+def _fetch_call(e: Optional[ast.AST]) -> Optional[ast.Call]:
+    """``anext(it[, default])`` / ``it.__anext__()`` under an await -> the call."""
+    if isinstance(e, ast.Await):
+        e = e.value
+    if isinstance(e, ast.Call):
+        f = norm(e.func).split(".")[-1]
+        if f in ("anext", "__anext__"):
+            return e
+    return None
+
+
+def _exhaustion_flag_positions(ctx, unit: Unit, call: ast.Call) -> Optional[Tuple[Set[int], bool]]:
+    """A private library coroutine that fetches one item and reports exhaustion in its return value: every return inside
+    its StopAsyncIteration handler carries the constant False at some position (of a tuple, or as the whole value: -1)
+    and every other return carries the constant True there.  -> (positions, True) or None."""
+    res = ctx.pkg.resolve_expr_global(unit.module, call.func)
+    target = ctx.pkg.lib_unit(res.qual) if res is not None and getattr(res, "qual", None) else None
+    if target is None or target.kind != "coroutine" or not target.node.name.startswith("_"):
+        return None
+    tcfg = cfg_of(target)
+    if not any(_fetch_call(n.ast) is not None for n in tcfg.nodes if n.kind == "await"):
+        return None
+    inside, outside = [], []
+    for n in tcfg.nodes:
+        if n.kind != "return" or n.tag:
+            continue
+        v = n.info.get("value")
+        stop = any(k == "handler" and "StopAsyncIteration" in norm(a.type) for (k, a) in n.regions)  # type: ignore[union-attr]
+        (inside if stop else outside).append(v)
+    if not inside or not outside:
+        return None
+
+    def consts(v) -> Dict[int, object]:
+        if isinstance(v, ast.Tuple):
+            return {i: e.value for i, e in enumerate(v.elts) if isinstance(e, ast.Constant) and isinstance(e.value, bool)}
+        if isinstance(v, ast.Constant) and isinstance(v.value, bool):
+            return {-1: v.value}
+        return {}
+    positions = None
+    for v in inside:
+        here = {i for i, c in consts(v).items() if c is False}
+        positions = here if positions is None else positions & here
+    for v in outside:
+        here = {i for i, c in consts(v).items() if c is True}
+        positions = (positions or set()) & here
+    return (positions, True) if positions else None
+
+
+def _exhaustion_witnessed(ctx, unit: Unit, cfg: CFG, removal: Node) -> bool:
+    """The removal is reached only with evidence that the item fetch before it found the iterator exhausted: on every
+    path from the entry or from any fetch (await / async-for step) to the removal, control enters a StopAsyncIteration
+    handler, or takes the branch on which the value of ``anext(it, MARK)`` *is* the marker, or the branch on which the
+    flag returned by a private fetch helper (False exactly in its StopAsyncIteration handler) is false."""
+    from asl.flow import node_defs, reaching
+    rd = reaching(cfg)
+    blocked_nodes: Set[Node] = {n for n in cfg.nodes if n.kind == "handler" and "StopAsyncIteration" in norm(n.info.get("type"))}
+    blocked_edges: Set[Tuple[Node, str]] = set()
+
+    def defining_stores(at: Node, name: str) -> List[Node]:
+        return [d for d in rd.defs_at(at, name)]
+
+    for b in cfg.nodes:
+        if b.kind != "branch" or b.tag:
+            continue
+        t = b.ast
+        # (b) ``value is MARK`` / ``value is not MARK``
+        if isinstance(t, ast.Compare) and len(t.ops) == 1 and isinstance(t.ops[0], (ast.Is, ast.IsNot)) \
+                and isinstance(t.left, ast.Name) and isinstance(t.comparators[0], ast.Name):
+            for val, mark in ((t.left, t.comparators[0]), (t.comparators[0], t.left)):
+                defs = defining_stores(b, val.id)
+                ok = bool(defs)
+                for d in defs:
+                    call = _fetch_call(d.info.get("value")) if d.kind == "store" else None
+                    if call is None or len(call.args) != 2 or norm(call.args[1]) != mark.id:
+                        ok = False
+                # the marker is private to this unit: a fresh object() (or a module-level sentinel), never an item
+                if ok:
+                    blocked_edges.add((b, "t" if isinstance(t.ops[0], ast.Is) else "f"))
+                    break
+        # (c) ``if alive`` where ``alive[, value] = await _helper(it)``
+        if isinstance(t, ast.Name):
+            defs = defining_stores(b, t.id)
+            ok = bool(defs)
+            for d in defs:
+                v = d.info.get("value") if d.kind == "store" else None
+                call = v.value if isinstance(v, ast.Await) and isinstance(v.value, ast.Call) else None
+                summary = _exhaustion_flag_positions(ctx, unit, call) if call is not None else None
+                if summary is None:
+                    ok = False
+                    break
+                positions = summary[0]
+                tg = d.info.get("targets", [None])[0]
+                if isinstance(tg, ast.Tuple):
+                    idx = [i for i, e in enumerate(tg.elts) if isinstance(e, ast.Name) and e.id == t.id]
+                    if not idx or idx[0] not in positions:
+                        ok = False
+                elif not (isinstance(tg, ast.Name) and -1 in positions):
+                    ok = False
+            if ok:
+                blocked_edges.add((b, "f"))
+    if not blocked_edges and not blocked_nodes:
+        return False
+    starts = [cfg.entry] + [n for n in cfg.nodes if n.kind in ("await", "pull") and not n.tag and n is not removal]
+    seen: Set[Node] = set()
+    work = list(starts)
+    while work:
+        n = work.pop()
+        if n in seen:
+            continue
+        seen.add(n)
+        if n is removal:
+            return False
+        for lab, nxt in n.succ:
+            if (n, lab) in blocked_edges or nxt in blocked_nodes:
+                continue
+            work.append(nxt)
+    return True
 
 
 def _filled_completely(ctx, unit: Unit, cfg: CFG, lname: str) -> Optional[str]:
